@@ -1,5 +1,5 @@
 // bounded stand-in / replay driver (appended to acts/src/cache/tests.rs of a scratch copy): property C11.
-// (also C03: the process state mirrors a terminal root task.)  At quiescent points of 7 histories (a script that writes the process environment; an eviction + reload while tasks are in flight; waiting at an act; after a completed act; an error taken by an empty catch; an error taken by a
+// (also C03: the process state mirrors a terminal root task.)  At quiescent points of 8 histories (a failing script act revived by its own catch; a script that writes the process environment; an eviction + reload while tasks are in flight; waiting at an act; after a completed act; an error taken by an empty catch; an error taken by a
 // catch with steps; an aborted process kept in the store) the process row and the task rows in the store are compared with the live
 // process: same set of tasks, per task state / prev / data / error / start and end time, per process state / error / env.
 #[tokio::test]
@@ -8,8 +8,8 @@ async fn verif_replay_hist_store_image() {
     use std::sync::{Arc, Mutex};
     let mut bad: Vec<String> = Vec::new();
     #[derive(Clone, Copy, Debug, PartialEq)]
-    enum H { Waiting, AfterComplete, EmptyCatch, CatchWithSteps, Aborted, EvictedInFlight, EnvWritten }
-    for h in [H::Waiting, H::AfterComplete, H::EmptyCatch, H::CatchWithSteps, H::Aborted, H::EvictedInFlight, H::EnvWritten] {
+    enum H { Waiting, AfterComplete, EmptyCatch, CatchWithSteps, Aborted, EvictedInFlight, EnvWritten, ScriptActCatch }
+    for h in [H::Waiting, H::AfterComplete, H::EmptyCatch, H::CatchWithSteps, H::Aborted, H::EvictedInFlight, H::EnvWritten, H::ScriptActCatch] {
         let config = crate::config::ConfigData { keep_processes: Some(true), cache_cap: Some(100), ..crate::config::ConfigData::default() };
         let engine = EngineBuilder::new().set_config(&config).build().await.unwrap().start();
         let rt = engine.runtime();
@@ -19,6 +19,12 @@ async fn verif_replay_hist_store_image() {
                 .with_step(|s| s.with_id("step2").with_act(Act::irq(|a| a.with_key("act2")))),
             H::CatchWithSteps => Workflow::new().with_id("vh").with_input("a", serde_json::json!(1))
                 .with_step(|s| s.with_id("step1").with_catch(|c| c.with_step(|s| s.with_id("cs1").with_act(Act::irq(|a| a.with_key("act2"))))).with_act(Act::irq(|a| a.with_key("act1")))),
+            // a script act (an act that delivers no message of its own) fails and its OWN catch, whose step waits for a client, takes the error:
+            // the revived act must be in the store as it is in memory
+            H::ScriptActCatch => Workflow::new().with_id("vh").with_input("a", serde_json::json!(1))
+                .with_step(|s| s.with_id("step1").with_act(Act::code(r#"throw new Error("boom");"#).with_id("c1")
+                    .with_catch(|c| c.with_step(|s| s.with_id("cs1").with_act(Act::irq(|a| a.with_key("act2")))))))
+                .with_step(|s| s.with_id("step2")),
             // a script writes the process environment after the process row was created
             H::EnvWritten => Workflow::new().with_id("vh").with_input("a", serde_json::json!(1))
                 .with_step(|s| s.with_id("step1").with_act(Act::code(r#"$env.cnt = 7; $env.who = "script";"#).with_id("c1")))
@@ -36,7 +42,7 @@ async fn verif_replay_hist_store_image() {
         engine.channel().on_message(move |e| {
             if e.is_key("act1") && e.is_state(MessageState::Created) {
                 match h {
-                    H::Waiting | H::EvictedInFlight | H::EnvWritten => { *q2.lock().unwrap() = true; }
+                    H::Waiting | H::EvictedInFlight | H::EnvWritten | H::ScriptActCatch => { *q2.lock().unwrap() = true; }
                     H::AfterComplete => { let _ = s.do_action(&Action::new(&e.pid, &e.tid, EventAction::Next, &Vars::new().with("a", 5))); }
                     H::EmptyCatch | H::CatchWithSteps => {
                         let mut o = Vars::new(); o.set(consts::ACT_ERR_CODE, "err1"); o.set(consts::ACT_ERR_MESSAGE, "biz error");
@@ -81,6 +87,9 @@ async fn verif_replay_hist_store_image() {
                     let live_data: serde_json::Value = serde_json::from_str(&task.data().to_string()).unwrap_or_default();
                     let row_data: serde_json::Value = serde_json::from_str(&row.data).unwrap_or_default();
                     if live_data != row_data { diffs.push(format!("{what}: row data {row_data} / live {live_data}")); }
+                    let (live_err, row_err) = (task.err().map(|e| e.ecode), row.err.as_ref().and_then(|e| serde_json::from_str::<serde_json::Value>(e).ok()).and_then(|v| v.get("ecode").and_then(|c| c.as_str().map(|s| s.to_string()))));
+                    if live_err.is_some() != row.err.as_ref().map(|e| !e.is_empty() && e != "null").unwrap_or(false) { diffs.push(format!("{what}: row error {:?} / live {:?}", row.err, live_err)); }
+                    let _ = row_err;
                 }
             }
         }
